@@ -199,6 +199,25 @@ def c08_swapBounds (t : Tr) : Bool :=
        else got == m.inAmt.toNat && decide (m.outAmt.toNat ≤ paid))
   | none => true
 
+/-- the bounds above are read off the escrow; this ties them to the parties: the stated recipient's
+balance of the output coin rises by exactly what the pool paid, and the payer's balance of the
+input coin falls by exactly what the pool received (input and output coin differ, so payer =
+recipient is covered) -/
+def c08_swapDelivered (t : Tr) : Bool :=
+  match swapMsgOf t.pre.std t.op with
+  | some m =>
+    !t.ok ||
+    (match t.pre.poolByCounter (if m.inDenom == t.pre.std then m.outDenom else m.inDenom) with
+     | none => false
+     | some p =>
+       let e := p.escrow
+       let pay := m.inAddr.bytes
+       let rc := m.outAddr.bytes
+       if rc == e || pay == e then true else
+       t.post.bank.get rc m.outDenom == t.pre.bank.get rc m.outDenom + loss t e m.outDenom &&
+       t.post.bank.get pay m.inDenom + gain t e m.inDenom == t.pre.bank.get pay m.inDenom)
+  | none => true
+
 /-- executed swap amounts are within one unit of the exact constant-product-with-fee value,
 rounded in the pool's favour.  With `δ = 10^18 − fee`:
 sell: `bought ≤ in·δ·Y/(X·10^18 + in·δ) < bought + 1`;
@@ -322,7 +341,7 @@ def monitors : List (String × String × (Tr → Bool)) :=
   [("C01", "k_nondecreasing", c01_k), ("C01", "remove_le_prorata", c01_removeProRata),
    ("C02", "rejected_unchanged", c02_rejectedUnchanged), ("C02", "swap_conserves", c02_swap),
    ("C02", "remove_conserves", c02_remove), ("C02", "add_conserves", c02_add),
-   ("C08", "deadline", c08_deadline), ("C08", "swap_bounds", c08_swapBounds),
+   ("C08", "deadline", c08_deadline), ("C08", "swap_bounds", c08_swapBounds), ("C08", "swap_delivered", c08_swapDelivered),
    ("C08", "swap_rounding", c08_swapRounding), ("C08", "add_bounds", c08_addBounds),
    ("C08", "remove_bounds", c08_removeBounds),
    ("C09", "whitelist", c09_whitelist), ("C09", "swap_cap", c09_swapCap), ("C09", "add_cap", c09_addCap),
